@@ -341,4 +341,13 @@ def unit_optimizer(S):
                     what="new parameters = parameters + updates (eqx.apply_updates); new optimiser state is the optimiser's")
 
 
-UNITS = [(f"ppo:{n}:{c}", unit_ppo(n, c)) for n in (False, True) for c in (False, True)] + [("ppo-lemmas", unit_ppo_lemmas), ("a2c-reinforce", unit_pg), ("optimizer", unit_optimizer)]
+def _collected_data(cfg):
+    """'on data collected by the current policy every ratio is 1': the rollout stores, next to each action, the policy's own log-probability of exactly that stored action (the
+    on-policy step contract stated in C04: stored-sample-reevaluates); with ppo/ratio = exp(new log-prob - stored log-prob) (units ppo:*) the first ratio is 1 and approx_kl is 0"""
+    def unit(S):
+        from contracts import C04
+        C04.unit_step(cfg)(S)
+    return unit
+
+
+UNITS = [(f"collected-data:{c}", _collected_data(c)) for c in ("PPO/box", "PPO/discrete-masked", "A2C/box")] + [(f"ppo:{n}:{c}", unit_ppo(n, c)) for n in (False, True) for c in (False, True)] + [("ppo-lemmas", unit_ppo_lemmas), ("a2c-reinforce", unit_pg), ("optimizer", unit_optimizer)]
